@@ -16,15 +16,15 @@ def _funcs():
             m.Block1014.write, m.Block1014.seek, m.Block1014.finalise, m.VbsReader.__next__]
 
 
-def history(writer, blocked, nrec, fins, maxlen):
+def history(writer, blocked, nrec, fins, maxlen, readable=True):
     nblocks = (nrec * (maxlen + 4) + 4 * (1 + len(fins))) // 1012 + 2 + len(fins)
 
     def h():
         core.FUEL.set(nblocks + 4)
         m = M().mciipm
-        f = RopeFile()
+        f = RopeFile(readable=readable)
         ns = [sym_int('len%d' % i, 1, maxlen) for i in range(nrec)]
-        rp = {'kind': 'history', 'args': {'writer': writer, 'blocked': blocked, 'lengths': [ev(n) for n in ns], 'fins': list(fins)}}
+        rp = {'kind': 'history', 'args': {'writer': writer, 'blocked': blocked, 'lengths': [ev(n) for n in ns], 'fins': list(fins), 'readable': readable}}
         if writer == 'vbs':
             w = m.VbsWriter(f, blocked=blocked)
             recs = [Source('rec%d' % i, 'b', n).rope() for i, n in enumerate(ns)]
@@ -41,6 +41,9 @@ def history(writer, blocked, nrec, fins, maxlen):
             core.FUEL.set(nblocks + 4)
             if fin == 'close':
                 w.close()
+            elif fin == 'with':
+                with w:             # the writer goes through a (further) with block
+                    pass
             else:
                 w.__exit__(None, None, None)
             if k == 0:
@@ -55,7 +58,7 @@ def history(writer, blocked, nrec, fins, maxlen):
             req_eq(final, snap, 'a later finalisation changed the file completed by the first one', key='C11/refinalise', replay=rp)
         # read back
         core.FUEL.set(nblocks + 4)
-        f.pos = 0
+        f = RopeFile(final)          # read back what is in the file
         got = []
         try:
             rd = (m.VbsReader if writer == 'vbs' else m.IpmReader)(f, blocked=blocked)
@@ -91,4 +94,12 @@ def obligations(tier):
                                   history(writer, blocked, nrec, fins, maxlen), 120,
                                   '%d record(s) of length 1..%d, finalisations %s' % (nrec, maxlen, '+'.join(fins)), _funcs,
                                   'more than %d finalisations; writes after a finalisation' % 3))
+    for writer in ('vbs', 'ipm'):
+        for fins in (('close',), ('exit',), ('close', 'exit')):
+            obs.append(Ob('%s/blocked/write-only-file/1rec/%s' % (writer, '+'.join(fins)), history(writer, True, 1, fins, 2500 if writer == 'vbs' else 99, readable=False), 120,
+                          'file object opened write-only (readable() is False), blocked output', _funcs))
+    for blocked in (False, True):
+        for fins in (('close', 'with'), ('exit', 'with'), ('with', 'with'), ('close', 'with', 'close')):
+            obs.append(Ob('vbs/%s/1rec/%s' % ('blocked' if blocked else 'unblocked', '+'.join(fins)), history('vbs', blocked, 1, fins, 2500), 120,
+                          'finalisation sequences in which the writer is used as a context manager again after a finalisation', _funcs))
     return obs
